@@ -289,6 +289,20 @@ func runC10(b *runner.Batch) {
 				}
 			}
 		}
+		if e.registrar != nil && r.IntN(12) == 0 {
+			var own []string
+			for _, nm := range c10Names {
+				if st := e.m.names[nm]; st != nil && e.m.alive(nm, now) && bytes.Equal(st.owner, e.registrar) {
+					own = append(own, nm)
+				}
+			}
+			if len(own) > 0 {
+				if res := do(e.opKeepAgain(runner.Pick(r, own)), nil, false); res.applied {
+					b.Hit("contract-transfers-its-name-to-itself-as-a-buffer")
+				}
+				continue
+			}
+		}
 		switch {
 		case k < 9 && r.IntN(7) == 0 && e.registrar != nil:
 			// bought through a contract that passes the name on from its payment callback (seeded change C10-5)
